@@ -151,6 +151,9 @@ def emit_subject_methods(d: Decl):
         if is_str:
             c.append("o.hash_borrowed_a = Some(nvrt::side_hash::<str>(ia.as_str()));")
         any_cmp = True
+    if "Clone" in der:
+        c.append("{ let mut c = ::core::clone::Clone::clone(&tb); ::core::clone::Clone::clone_from(&mut c, &ta); o.clone_from = Some((inner_of(c), nvrt::Conv::to_value(&ia))); }")
+        any_cmp = True
     c.append("let _ = (&ta, &tb, &ia, &ib); Some(o)")
     if any_cmp:
         m.append("fn cmp2(&self, a: &nvrt::Value, b: &nvrt::Value) -> Option<nvrt::CmpObs> {\n            " + "\n            ".join(c) + "\n        }")
